@@ -87,19 +87,16 @@ def set_nodes_as_latent_confounders(G: Union[nx.DiGraph, ADMG], nodes: List[Node
             )
 
         # keep track of which nodes to form c-components over
-        successor_nodes = G.successors(node)
-        for idx, succ in enumerate(successor_nodes):
+        successor_nodes = list(G.successors(node))
+        for succ in successor_nodes:
             # TODO: do we want this?; add parent -> successor edges
             # if there are parents to this node, they must now point to all the successors
             for parent in G.predecessors(node):
                 new_parent_ch_edges.append((parent, succ))
 
-            # form a c-component among the successors
-            if idx == 0:
-                prev_succ = succ
-                continue
-            bidirected_edges.append((prev_succ, succ))
-            prev_succ = succ
+        # form a c-component among the successors: every pair of them is joined, so that
+        # the result does not depend on the order in which the successors are listed
+        bidirected_edges.extend(combinations(successor_nodes, 2))
 
     # create the graph with nodes excluding those that are converted to latent confounders
     if isinstance(G, ADMG):
